@@ -377,17 +377,19 @@ def run(ctx: Ctx):
     pool = ThreadPoolExecutor(max_workers=6 if quick else 8)
     w = 2 if quick else 4
     fut = {}
-    for name in ("prim_edges", "proto_edges"):
+    edge_cfgs = ("prim_edges", "proto_edges") if quick else ("prim_edges_thorough", "proto_edges")
+    for name in edge_cfgs:
         fut[name] = pool.submit(tlc.run_tlc, "MCKeyValueStore", f"MCKeyValueStore_{name}.cfg", ctx.sub(name), workers=w, timeout=900)
-    nsim = (30, 40) if quick else (600, 400)
-    for (name, n) in zip(("all", "proto"), nsim):
-        fut["sim_" + name] = pool.submit(tlc.run_tlc, "SimKeyValueStore", f"SimKeyValueStore_{name}.cfg", ctx.sub("sim_" + name), workers=1,
-                                         timeout=1800, simulate=f"num={n}", depth=60, seed=ctx.seed + 11)
+    # (configuration, behaviours, seed): TLC simulation is single-threaded, so the thorough tier runs several seeds side by side
+    sims = [("all", 30, 0), ("proto", 40, 0)] if quick else [("all", 100, i) for i in range(4)] + [("proto", 150, i) for i in range(2)]
+    for name, n, i in sims:
+        fut[f"sim_{name}_{i}"] = pool.submit(tlc.run_tlc, "SimKeyValueStore", f"SimKeyValueStore_{name}.cfg", ctx.sub(f"sim_{name}_{i}"), workers=1,
+                                             timeout=1800, simulate=f"num={n}", depth=60, seed=ctx.seed * 1000 + 11 + i)
     for name in MC[ctx.tier]:
         fut["mc_" + name] = pool.submit(tlc.run_tlc, "MCKeyValueStore", f"MCKeyValueStore_{name}.cfg", ctx.sub("mc_" + name), workers=w if quick else 8,
-                                        timeout=2400)
+                                        timeout=2400, coverage=not quick)
     for i, (name, dev, _want) in enumerate(DEVS):
-        fut[f"dev{i}"] = pool.submit(tlc.run_tlc, "MCKeyValueStore", _cfg(name, dev), ctx.sub(f"dev{i}"), workers=1 if quick else 2, timeout=900)
+        fut[f"dev{i}"] = pool.submit(tlc.run_tlc, "MCKeyValueStore", _cfg(name, dev), ctx.sub(f"dev{i}"), workers=1, timeout=900)
 
     import time
     marks = [("start", time.time())]
@@ -399,7 +401,7 @@ def run(ctx: Ctx):
     threads = K.ClientThreads(rec)
     try:
         # ---- 2. exhaustive edges
-        for name in ("prim_edges", "proto_edges"):
+        for name in edge_cfgs:
             res = tlc.require_ok(fut[name].result(), name)
             ctx.add_tlc(res, f"KeyValueStore.tla exhaustive transitions ({name})")
             if not res.ok:
@@ -413,7 +415,7 @@ def run(ctx: Ctx):
             mark(name)
         # ---- 3. behaviours
         cov = {}
-        for name in ("sim_all", "sim_proto"):
+        for name in [f"sim_{a}_{i}" for a, _n, i in sims]:
             res = tlc.require_ok(fut[name].result(), name)
             ctx.add_tlc(res, f"KeyValueStore.tla -simulate behaviours ({name})")
             if not res.ok:
@@ -433,8 +435,8 @@ def run(ctx: Ctx):
                 ctx.case((name, h), nontrivial=inter,
                          sample={"behaviour": name, "steps": [[s["last"]["c"], s["last"]["op"], s["last"]["tx"], s["last"]["res"]["k"] + s["last"]["res"]["e"]]
                                                               for s in b[:12]]} if inter and len(ctx.samples) < 4 else None)
-            ctx.extra[f"behaviours_{name}"] = len(behs)
-            ctx.extra[f"behaviours_interleaved_{name}"] = nint
+            ctx.extra["behaviours_replayed"] = ctx.extra.get("behaviours_replayed", 0) + len(behs)
+            ctx.extra["behaviours_interleaved"] = ctx.extra.get("behaviours_interleaved", 0) + nint
             mark(name)
         missing = [a for a in ACTIONS if cov.get(a, 0) == 0]
         ctx.extra["spec_actions_replayed_in_behaviours"] = {a: cov.get(a, 0) for a in ACTIONS}
@@ -450,13 +452,15 @@ def run(ctx: Ctx):
             if failure:
                 ctx.violation("kvs-trace:scenario:call-never-completes",
                               f"real scenario {start} step {step}: {failure}; last transactions "
-                              f"{[[r['c'], r['op'], r['tx'], r['res']['k']] for r in tr[-4:]]}", {"mode": "trace", "trace": tr})
+                              f"{[[r['c'], r['op'], r['tx'], r['res']['k']] for r in tr[-4:]]}",
+                              {"mode": "trace", "trace": tr, "scenario": {"start": start, "step": step, "nsteps": nsteps, "seed": seed}})
                 break
             pushes = sum(r["op"] == "pushEvent" for r in tr[1:])
             if pushes == 0:
                 raise tlc.MachineryError("the recorded scenario pushed no event (impulse / burn configuration ineffective)")
             traces.append(tr)
-            owners.append(("scenario", {"start": start, "step": step, "nsteps": nsteps, "pushes": pushes, "transactions": len(tr) - 1}, reports, [], und))
+            owners.append(("scenario", {"start": start, "step": step, "nsteps": nsteps, "seed": seed, "pushes": pushes, "transactions": len(tr) - 1},
+                           reports, [], und))
         mark("scenarios")
         sched.reset()
         for i in range(40 if quick else 600):
@@ -474,12 +478,13 @@ def run(ctx: Ctx):
             ctx.case((kind, h), nontrivial=True, sample={"kind": kind, **meta, "head": [[r["c"], r["op"], r["tx"], r["res"]["k"] + r["res"]["e"]] for r in tr[1:9]]}
                      if len(ctx.samples) < 6 and (kind == "scenario" or j % 17 == 5) else None)
             ctx.traces_validated += 1
+            scen_meta = {"scenario": meta} if kind == "scenario" else {}
             pos = reached.get(j + 1, 1)
             if pos < 2:
                 raise tlc.MachineryError(f"trace {j + 1} ({kind} {meta}) could not be loaded by TraceKeyValueStore.tla")
             if (j + 1) in inv:
                 ctx.violation(f"kvs-trace:invariant:{inv[j + 1]}", f"recorded {kind} run {meta}: {inv[j + 1]} fails on the recorded dictionary",
-                              {"mode": "trace", "trace": tr})
+                              {"mode": "trace", "trace": tr, **scen_meta})
             elif pos != len(tr) + 1:
                 r = tr[pos - 1]
                 ctx.violation(f"kvs-trace:{r['op']}/{r['tx']}:unexplained",
@@ -487,7 +492,7 @@ def run(ctx: Ctx):
                               f"-> {json.dumps(r['res'])} done={r['done']} outcome={r['opres']} leaving "
                               f"{json.dumps({k: v for k, v in r['store'].items() if v['t'] != 'absent'})} is not a step of KeyValueStore.tla from "
                               f"{json.dumps({k: v for k, v in tr[pos - 2]['store'].items() if v['t'] != 'absent'})}",
-                              {"mode": "trace", "trace": tr[: pos]})
+                              {"mode": "trace", "trace": tr[: pos], **scen_meta})
             for who, popped, lines, outcome in reports:
                 if outcome == "ok" and kind != "scenario" and not K.check_report(popped, lines):
                     ctx.violation("kvs-trace:logAndFlush:report", f"logAndFlushEvents popped {popped} but reported {lines}", {"mode": "trace", "trace": tr})
@@ -510,11 +515,20 @@ def run(ctx: Ctx):
         rec.uninstall()
 
     # ---- 1. spec-level theorems and deviations
+    tcov = {}
     for name in MC[ctx.tier]:
         res = tlc.require_ok(fut["mc_" + name].result(), name)
         ctx.add_tlc(res, f"KeyValueStore.tla exhaustive ({name}): all invariants and action properties")
         if not res.ok:
             raise tlc.MachineryError(f"KeyValueStore.tla theorem fails at spec level ({name}): {_names(res)} {res.errors[:2]}\n" + res.stdout[-2000:])
+        for m in _COV.finditer(res.stdout):
+            tcov[m.group(1)] = tcov.get(m.group(1), 0) + int(m.group(3))
+    if not quick:
+        # TLC's own action coverage over the exhaustive configurations (transitions generated per action; read-only
+        # calls never find a NEW state, `last` being outside the view)
+        ctx.extra["tlc_action_coverage_transitions"] = {a: tcov.get(a, 0) for a in ACTIONS}
+        if any(tcov.get(a, 0) == 0 for a in ACTIONS):
+            raise tlc.MachineryError(f"TLC coverage: actions never taken: {[a for a in ACTIONS if tcov.get(a, 0) == 0]}")
     killed = 0
     for i, (name, dev, want) in enumerate(DEVS):
         res = tlc.require_ok(fut[f"dev{i}"].result(), f"{name}/{dev}")
@@ -543,11 +557,28 @@ def replay(ctx: Ctx, rp: dict):
             replay_behaviour(ctx, r["behaviour"], rec, threads, tok, scratch, "replay")
             ctx.case(("replay", "behaviour"))
         else:
-            reached, inv = validate_traces(ctx, [r["trace"]], "trace", workers=1)
+            # re-record: the same scenario, or the same calls in the same order of transactions, on the current code
+            old = r["trace"]
+            if r.get("scenario"):
+                m = r["scenario"]
+                (tr, _und), _rep, failure = record_scenario(rec, tok, m["start"], m["step"], m["nsteps"], m["seed"])
+                if failure:
+                    ctx.violation("kvs-trace:scenario:call-never-completes", failure, r)
+                    return
+            else:
+                K.install_store({k: v for k, v in old[0]["store"].items() if v["t"] != "absent"}, tok)
+                del rec.records[:]
+                init_store, _ = K.proj_store(tok)
+                for x in old[1:]:
+                    if not threads.busy(x["c"]):
+                        threads.start(x["c"], K.make_call(tok, x["op"], x["key"], x["arg"], x["loc"], scratch), loc=x["loc"])
+                    threads.step(x["c"])
+                threads.abort_all()
+                tr, _und = _finish_trace(list(rec.records), init_store, tok)
+            reached, inv = validate_traces(ctx, [tr], "trace", workers=1)
             ctx.case(("replay", "trace"))
-            if reached.get(1, 2) != len(r["trace"]) + 1 or inv:
-                ctx.violation("kvs-trace:replay", "the stored trace is still not a behaviour of KeyValueStore.tla (stored records, not re-recorded)",
-                              {"mode": "trace", "trace": r["trace"]})
+            if reached.get(1, 1) != len(tr) + 1 or inv:
+                ctx.violation("kvs-trace:replay", "the re-recorded run is still not a behaviour of KeyValueStore.tla", {"mode": "trace", "trace": tr})
     finally:
         threads.abort_all()
         rec.uninstall()
